@@ -324,7 +324,7 @@ Proof.
   intro Hin. apply H2. apply in_map_iff in Hin. destruct Hin as [r' [E Hr']]. apply filter_In in Hr'.
   rewrite <- E. apply in_map. tauto.
 Qed.
-Lemma NoDup_app_disj : forall (a b : list Z), NoDup a -> NoDup b -> (forall x, In x a -> ~ In x b) -> NoDup (a ++ b).
+Lemma NoDup_app_disj : forall {A} (a b : list A), NoDup a -> NoDup b -> (forall x, In x a -> ~ In x b) -> NoDup (a ++ b).
 Proof.
   induction a as [|x t IH]; simpl; intros; [assumption|]. inversion H; subst.
   constructor; [|apply IH; auto]. rewrite in_app_iff. intros [?|?]; [tauto|]. apply (H1 x); auto.
